@@ -42,7 +42,8 @@ reg(Prop(
          'neighbours of both. The REAL result of parse_string / phrase_parse_string / grammar_parse_string is printed by a generic printer (unit, '
          'characters, numbers, strings, tuple, variant with index, optional, vector, recursive, map, user structs); the reference interpreter applies the '
          'PEG semantics plus the documented result-type rules (sequence_result.hpp, alternative_result.hpp, repetition_result.hpp, parse.doxygen) and '
-         'prints the same canonical form; success/failure, canonical value, fatal flag and the spelled-out result type are compared.',
+         'prints the same canonical form; success/failure, canonical value, fatal flag and the spelled-out result type are compared.'
+         ' as_struct<std::vector<int>> over two ints: the documented list-initialisation Result{t_1,t_2} (two elements).',
     assumptions=COMMON_ASSUMPTIONS + [
         'generated grammars are well-formed by construction (no left recursion, no repetition of a nullable parser)',
         'adopted implementation choices that the documentation leaves open: int_/uint/float_ accept only magnitudes that fit the type; a repetition keeps an element only if the skipper after it succeeded; error texts are not compared (C12 owns locations)',
